@@ -331,7 +331,7 @@ func checkDoc2(d *node, cls bool) *verdict {
 // repairing one feature at a time and re-checking: the cause is the feature whose removal makes
 // the document pass.
 func classifyDoc(d *node, clause, msg string) *verdict {
-	cause := "other:" + d.String()
+	cause := "other"
 	if d.kind == 'o' && len(d.kids) == 0 {
 		cause = "top-level-empty-object"
 	} else if checkDoc2(repair(d, true, false), false) == nil {
